@@ -117,6 +117,7 @@ CHECKS = {
             {"gen": "C11model", "quick": 196, "thorough": 196, "exhaustive": True},
             {"gen": "C11model", "quick": 160, "thorough": 3200},
             {"gen": "C11", "quick": 1600, "thorough": 32000},
+            {"gen": "C11srv", "quick": 800, "thorough": 8000},
         ],
         "rule": "three parts. (a) exhaustive: every sequence of length 2..5 over the 14-value boundary alphabet {0,1,63,64,65,8127,8128,8129,8191,8192,8193,16389,2^64-2,2^64-1} x limits {2^64-1, 8192, 65}, "
                 "the real PacketWindowFilter compared step by step with a set-based reference model (accept iff id < limit and (id > max or (max - id <= 8128 and id not seen))). "
@@ -125,15 +126,16 @@ CHECKS = {
                 "every datagram and every reply must arrive exactly once, i.e. duplicates are refused, reordered ids inside the window accepted, and a refusal ends neither the session nor the service. "
                 "evaluations = sequences compared + system runs; non-trivial/distinct = distinct histories or (plan, poll order).",
         "real": ["octo_squirrel::manager::packet_window::PacketWindowFilter (a, b)"] + REAL_SYSTEM, "stub": STUB_SYSTEM,
-        "assumptions": ASSUME_SYSTEM + ["the reference model is the harness's reading of the property statement (window 8128, limit exclusive)", "packet ids near 2^64 are exercised at component level only"],
+        "assumptions": ASSUME_SYSTEM + ["the reference model is the harness's reading of the property statement (window 8128, limit exclusive)", "packet ids near 2^64 are exercised at component level and by C12's exhaustion part",
+                                        "generator C11srv (the client's side of the rule): a reference *server* answers the real client's datagram session with a scripted arrival order of (server session, packet id) pairs - two server sessions interleaved (restart / expired association with stragglers of the old session still in flight), duplicates, ids behind the window, gaps, jumps beyond the ring; what the application receives is compared step by step with the predicate kept per server session"],
     },
     "C16": {
         "level": "fault_enumeration",
-        "parts": [{"gen": "C16", "quick": 606, "thorough": 606, "exhaustive": True}],
+        "parts": [{"gen": "C16", "quick": 634, "thorough": 634, "exhaustive": True}],
         "exhaustive_claim": True,
-        "rule": "exhaustive over the documented names (606 cases, the seed is the case index): every cipher name (7 + the chacha20-ietf-poly1305 alias) x every server mode (tcp, udp, tcp_and_udp, quic, tcp_and_quic), "
+        "rule": "exhaustive over the documented names (634 cases, the seed is the case index): every cipher name (7 + the chacha20-ietf-poly1305 alias) x every server mode (tcp, udp, tcp_and_udp, quic, tcp_and_quic), "
                 "default modes, every client mode x protocol, every Shadowsocks-2022 key length 0..48 bytes as client password, server password and user-table key, and 26 undocumented cipher / protocol / mode strings "
-                "or missing ciphers on either side; transport sections ssl, ws, ssl+ws and quic (incl. the quic / tcp_and_quic server modes with a QUIC endpoint in the registry and datagrams over quic); Shadowsocks-2022 key lists of 1-4 keys whose identity-header chain on stream and datagram is compared with the one the reference computes. Each case boots the real client and server main() with that JSON. Oracle: the TCP listeners and UDP sockets in the simulated registry equal the documented set for the mode, "
+                "or missing ciphers on either side (for Shadowsocks entries and, the cipher names, for VMess and Trojan entries too); transport sections ssl, ws, ssl+ws and quic (incl. the quic / tcp_and_quic server modes with a QUIC endpoint in the registry and datagrams over quic); Shadowsocks-2022 key lists of 1-4 keys whose identity-header chain on stream and datagram is compared with the one the reference computes. Each case boots the real client and server main() with that JSON. Oracle: the TCP listeners and UDP sockets in the simulated registry equal the documented set for the mode, "
                 "a canary TCP flow and/or UDP exchange works over them, undocumented names and wrong-length keys leave the affected side not serving and its main() ended; never a panic.",
         "real": REAL_SYSTEM, "stub": STUB_SYSTEM, "assumptions": ASSUME_SYSTEM + ["that a named cipher is exactly the named algorithm with the named key derivation is decided by the interoperability check (C03)"],
     },
@@ -150,7 +152,7 @@ CHECKS = {
     },
     "C03": {
         "level": "exploration",
-        "parts": [{"gen": "C03", "quick": 6000, "thorough": 120000}, {"gen": "C03keys", "quick": 400, "thorough": 8000}],
+        "parts": [{"gen": "C03", "quick": 6000, "thorough": 120000}, {"gen": "C03keys", "quick": 400, "thorough": 8000}, {"gen": "C03ustream", "quick": 300, "thorough": 6000}],
         "rule": "refinement against an independent reference implementation of the published formats (/verif/refimpl: no dependency on /repo, shares only third-party crypto crates; calibrated against the repository's own known-answer vectors) "
                 "placed as a second party on the simulated wire. The mode cycles with the seed: real client -> strict reference server (which also answers), reference client -> real server -> target, the same two for Shadowsocks datagrams, "
                 "and the library's stream encoder driven directly with one 70 000-byte write. Cells: 7 Shadowsocks ciphers (2022 AES ones also with 1 and 3 registered users, the reference client being a drawn user), VMess x 2 with all 8 option masks that contain ChunkStream, Trojan; "
@@ -158,7 +160,7 @@ CHECKS = {
                 "the code accepts everything the reference emits with the same result, sender limits hold (legacy chunk <= 0x3FFF, 2022 chunk <= 0xFFFF).",
         "real": REAL_SYSTEM, "stub": STUB_SYSTEM + ["the other protocol party is the reference implementation"], "assumptions": ASSUME_SYSTEM + [
             "the reference is the harness author's reading of SIP004 / SIP022 / SIP023, the VMess AEAD description and Trojan; where the de-facto specification is v2ray's behaviour (authenticated length keyed by the request key and IV in both directions, padding drawn before the size mask) it follows that - these points have reduced independence",
-            "VMess / Trojan datagram-in-stream formats are exercised between the two real ends (C02) and against the reference client in C04udp",
+            "generator C03ustream (datagram formats inside streams, real client -> reference server): one application socket sends datagrams to two or three targets (by name or literal, sometimes all on one port), alternating; every carrier connection the real client opens (VMess over tcp: one per target; Trojan over tls, terminated by the reference server itself: one for all) is read by the strict reference, and the (target, payload) pairs it recovers must be the ones the application sent; the opposite pairing (reference client -> real server) is C04udp",
             "generator C03keys (identity headers through a chain of relays): the client's password lists 1-5 keys drawn from the seed; its stream request and its datagrams are taken through the chain the specification describes by the reference - relay i checks that identity header i names key i+1 and strips it, the last hop is a server that knows the user key - and address and payload must come out unchanged"],
     },
     "C10": {
